@@ -51,7 +51,8 @@ OpJudge(recs, e, O) ==
     [] e.op = "complement" -> JudgeComplement(recs[e.src], O)
     [] e.op = "transcribe" -> JudgeTranscribe(recs[e.src], O)
     [] e.op = "concat"     -> JudgeConcat([j \in 1..Len(e.srcs) |-> recs[e.srcs[j]]], O)
-    [] e.op \in {"repair", "filter", "finsert"} -> {}   \* judged by Repair.tla / Select.tla
+    [] e.op = "repair"     -> JudgeRepair(recs[e.src], O)
+    [] e.op \in {"filter", "finsert"} -> {}   \* judged by Feat.tla
     [] OTHER               -> If(~SameObs(O.raw, recs[e.src].raw), V("identity", "-"))
 
 \* what the calculus layer predicts for a library call on the RAW records
@@ -66,7 +67,8 @@ CalcOp(recs, e) ==
     [] e.op = "complement" -> ComplementC(recs[e.src].raw)
     [] e.op = "transcribe" -> TranscribeC(recs[e.src].raw)
     [] e.op = "concat"     -> ConcatC([j \in 1..Len(e.srcs) |-> recs[e.srcs[j]].raw])
-    [] OTHER               -> recs[e.src].raw
+    [] e.op = "repair"     -> RepairC(recs[e.src].raw)
+    [] OTHER               -> recs[e.src].raw   \* copies; filter / finsert are judged by Feat.tla
 
 \* Which known deviation explains the verdict v of this step?  D explains v
 \* iff the calculus layer with D present predicts exactly the observed
@@ -107,6 +109,17 @@ Explains(ws, e, v) ==
           IN /\ Len(st2.res) = Len(want)
              /\ v \notin OpJudge(ws.recs, e, Proj(st2, want))}
        \cup
+       \* the Repair deviations are recognised by their input predicate on the
+       \* class group the verdict is about (labels name the class: key for
+       \* repair-cover, feature label otherwise)
+       {D \in Devs \cap {"RepairCp", "RepairJn"} :
+          /\ e.op = "repair"
+          /\ LET S == ws.recs[e.src].raw
+                 labs == IF v[1] = "repair-cover" THEN {S.feats[j].label : j \in {q \in 1..Len(S.feats) : S.feats[q].key = v[2]}}
+                         ELSE IF v[2] = "-" THEN {S.feats[j].label : j \in 1..Len(S.feats)}
+                         ELSE {v[2]}
+             IN \E lab \in labs : IF D = "RepairCp" THEN RepairCpGroup(S, lab) ELSE RepairJnGroup(S, lab)}
+       \cup
        \* "WrapSlice" has no repaired transcription; it is recognised by its
        \* input predicate, on the feature the verdict is about, markers only
        {D \in Devs \cap {"WrapSlice"} :
@@ -136,12 +149,23 @@ StepOp(ws, e, withext) ==
            vs |-> vs2,
            taint |-> IF vs2 # {} \/ OpSrcs(e) \cap ws.taint # {} THEN ws.taint \cup {e.dst} ELSE ws.taint \ {e.dst}]
 
+\* a restoration law (cut ; concat ; repair) can fail although every step was
+\* accepted; for the law "sametable" the repair input is named by e.via
+ExplainsLaw(ws, e, v) ==
+  IF e.name \notin {"sametable", "sameraw"} \/ "via" \notin DOMAIN e \/ ~HasRec(ws, e.via) \/ ~HasRec(ws, e.b) THEN {}
+  ELSE LET S == ws.recs[e.via].raw IN
+       IF ~SameObs(IF e.name = "sametable" THEN RepairC(S) ELSE RepairC(RepairC(S)), ws.recs[e.b].raw) THEN {}
+       ELSE {D \in Devs \cap {"RepairCp", "RepairJn"} :
+               LET labs == IF v[2] = "-" THEN {S.feats[j].label : j \in 1..Len(S.feats)} ELSE {v[2]}
+               IN \E lab \in labs : IF D = "RepairCp" THEN RepairCpGroup(S, lab) ELSE RepairJnGroup(S, lab)}
+
 StepLaw(ws, e) ==
   IF ~HasRec(ws, e.a) \/ ~HasRec(ws, e.b) \/ e.a \in ws.taint \/ e.b \in ws.taint THEN {}
   ELSE CASE e.name = "restored"    -> LawRestored(ws.recs[e.a], ws.recs[e.b])
          [] e.name = "samemeaning" -> LawSameMeaning(ws.recs[e.a], ws.recs[e.b])
          [] e.name = "pieces"      -> LawPieces(ws.recs[e.a], ws.recs[e.b])
          [] e.name = "sameextract" -> LawSameExtract(ws.recs[e.a], ws.recs[e.b])
+         [] e.name = "sametable"   -> IF HasRec(ws, e.via) THEN LawSameTable(ws.recs[e.a], ws.recs[e.b], ws.recs[e.via]) ELSE {}
          [] e.name = "sameraw"     -> If(~SameObs(ws.recs[e.a].raw, ws.recs[e.b].raw), V("law-raw", "-"))
          [] OTHER -> V("unknown-law", e.name)
 
